@@ -1,4 +1,4 @@
-SERVED = ["C03", "C06", "C07", "C08", "C13", "C14", "C16", "C17", "C18", "C19", "C20"]
+SERVED = ["C03", "C06", "C07", "C08", "C10", "C13", "C14", "C16", "C17", "C18", "C19", "C20"]
 HOOKS = {
     "guard": "PSYCHEC_VERIF",
     "enable": "harness/Makefile compiles /repo's sources with -DPSYCHEC_VERIF into /verif/.cache/build-<flavour>/; "
@@ -152,5 +152,17 @@ CHECKS = {
         "note": "Trusted: Coq kernel; hand transcription C07Model.v (types as values: mutation of a FunctionType through sharing modelled as construction); the reading of 6.7.6 as ctype_of; "
                 "extraction; harness. Typedef-name/declarator ambiguities such as `T (x)` and `(T)` are kept out of the generator (C04/C09). Print Assumptions: closed under the global context.",
         "technique": "Coq proof by structural induction over declarators (stack-machine invariant) + model/implementation correspondence on generated declarations",
+    },
+    "C10": {
+        "text": "Theorem C10_lookup_innermost (structural induction over programs of any nesting; custom induction through nested item lists): the frame model of what the binder records "
+                "(one frame per scope holding every declaration made directly in it, first declaration wins, walk outwards) resolves every ordinary-identifier use exactly as C11 6.2.1 "
+                "positional scoping does — innermost enclosing block, parameters visible in the whole body, the function's own name visible in its body, other name spaces and sibling/inner "
+                "blocks never consulted — whenever no declaration that appears later in a scope matters for an earlier use (ok_items).  The two ways the hypothesis / the faithful model fail "
+                "are proved as refutations with witnesses and recorded as known findings (enumerators registered as members; a later declaration found for an earlier use).  Tie: for every use "
+                "of generated programs (5 names reused across scopes and name spaces) the declaration found through scopeOf()->searchForDeclaration() is compared with the model and with C11.",
+        "design_ref": "DESIGN.md section 6, C10",
+        "note": "Trusted: Coq kernel; the functional frame model abstracts the push/pop/stash protocol (its RESULT is modelled; a protocol error shows as a correspondence failure); "
+                "extraction; harness. Tag and member look-ups are only decoys. Print Assumptions: closed under the global context.",
+        "technique": "Coq proof by structural induction over abstract programs (frame model = positional scoping under a named hypothesis, refutations for the rest) + correspondence",
     },
 }
